@@ -58,3 +58,20 @@ Proof.
   - unfold probe_outcome in E. destruct (Z.eqb_spec (p_send pi) 2); [contradiction|].
     destruct (matching_ack_before pi (p_interval pi) || tcp_contact pi); discriminate.
 Qed.
+
+(* ---------- C06: a refutation that gets in between the two halves of the timeout callback ---------- *)
+(* the callback checks, unlocks, and then applies a death claim at the incarnation it checked; if the member's
+   alive message at a higher incarnation is processed in between, the death claim is stale and changes nothing *)
+Lemma refutation_before_death_claim c s inc name addr meta vsn r from :
+  lk s name = Some r -> name <> self c -> raddr r = addr -> (rinc r < inc)%N -> vsn_bad vsn = false ->
+  let s' := fst (do_alive c s inc name addr meta vsn false) in
+  do_dead c s' (rinc r) name from = (s', []) /\
+  exists r', lk s' name = Some r' /\ rst r' = Alive /\ rinc r' = inc.
+Proof.
+  intros L Hn Ea Lt Vb. cbv zeta.
+  destruct (newer_alive_accepted c s inc name addr meta vsn r L Hn Ea Lt Vb) as [r' [L' [A' [I' _]]]].
+  split; [|exists r'; auto].
+  unfold do_dead. unfold lk in L'. rewrite L'.
+  assert (E : (rinc r <? rinc r')%N = true) by (apply N.ltb_lt; rewrite I'; exact Lt).
+  rewrite E. reflexivity.
+Qed.
